@@ -34,7 +34,8 @@ type Result struct {
 	Prop        string
 	Obls        []Obligation
 	Rules       map[string]string // rule id -> one-line statement
-	MinCount    map[string]int    // rule id -> minimum number of instances confirmed by hand
+	MinCount    map[string]int    // rule id -> vacuity floor: half the number of instances confirmed by hand (at least 1)
+	Confirmed   map[string]int    // rule id -> number of instances confirmed by hand on the pinned tree
 	Controls    []string          // positive/negative control outcomes
 	Assumptions []string
 	Explanation string
@@ -43,11 +44,18 @@ type Result struct {
 }
 
 func newResult(prop string) *Result {
-	return &Result{Prop: prop, Rules: map[string]string{}, MinCount: map[string]int{}, Stats: map[string]interface{}{}}
+	return &Result{Prop: prop, Rules: map[string]string{}, MinCount: map[string]int{}, Confirmed: map[string]int{}, Stats: map[string]interface{}{}}
 }
 
 func (r *Result) rule(id, text string, min int) {
 	r.Rules[id] = text
+	// The floor is half the hand-confirmed count: a rule that loses most of its instances has lost its role
+	// resolution (vacuous pass), while a legitimate change that merges a few sites into a helper must not be
+	// reported as breakage.
+	r.Confirmed[id] = min
+	if min > 1 {
+		min = (min + 1) / 2
+	}
 	r.MinCount[id] = min
 }
 
@@ -153,7 +161,7 @@ func finish(r *Result, tier string, seed int, p *Prog, verifDir string, start ti
 	sort.Strings(ruleIDs)
 	for _, id := range ruleIDs {
 		if perRule[id] < r.MinCount[id] {
-			broken = append(broken, fmt.Sprintf("rule %s matched %d instances, fewer than the %d confirmed by hand (vacuity guard)", id, perRule[id], r.MinCount[id]))
+			broken = append(broken, fmt.Sprintf("rule %s matched %d instances, below the vacuity floor %d (%d confirmed by hand on the pinned tree)", id, perRule[id], r.MinCount[id], r.Confirmed[id]))
 		}
 	}
 	for _, o := range und {
@@ -210,7 +218,7 @@ func finish(r *Result, tier string, seed int, p *Prog, verifDir string, start ti
 	}
 	ruleList := []map[string]interface{}{}
 	for _, id := range ruleIDs {
-		ruleList = append(ruleList, map[string]interface{}{"id": id, "text": r.Rules[id], "instances": perRule[id], "min_instances": r.MinCount[id]})
+		ruleList = append(ruleList, map[string]interface{}{"id": id, "text": r.Rules[id], "instances": perRule[id], "min_instances": r.MinCount[id], "confirmed_by_hand": r.Confirmed[id]})
 	}
 	discharged := 0
 	for _, o := range r.Obls {
